@@ -90,6 +90,20 @@ static std::string MutU32(const std::string &b, size_t off, int pat) {
   for (int i = 0; i < 4 && off + i < m.size(); ++i) m[off + i] = static_cast<char>((v >> (8 * i)) & 0xff);
   return m;
 }
+// Values v for which v * m wraps (unsigned 32-bit) or turns negative (signed 32-bit) for the small
+// multipliers m a decoder applies to a declared count (3 corners, 5 descriptor bytes, 4/8/12-byte elements):
+// a guard computed in 32 bits lets exactly these through. Written both as a little-endian uint32 and as a
+// 5-byte varint replacing the varint at the offset.
+static const uint32_t kWrapMagic[8] = {0x33333334u, 0x55555556u, 0x2AAAAAABu, 0x1999999Au, 0x40000000u, 0x20000000u, 0x15555556u, 0x66666667u};
+static std::string VarintBytes(uint32_t v) { std::string s; while (v >= 0x80) { s.push_back(static_cast<char>((v & 0x7f) | 0x80)); v >>= 7; } s.push_back(static_cast<char>(v)); return s; }
+static std::string MutMagic(const std::string &b, size_t off, int pat) {
+  const uint32_t v = kWrapMagic[pat % 8];
+  if (pat < 8) { std::string m = b; for (int i = 0; i < 4 && off + i < m.size(); ++i) m[off + i] = static_cast<char>((v >> (8 * i)) & 0xff); return m; }
+  size_t end = off;
+  while (end < b.size() && (static_cast<uint8_t>(b[end]) & 0x80) && end - off < 10) ++end;
+  if (end < b.size()) ++end;
+  return b.substr(0, off) + VarintBytes(v) + b.substr(end);
+}
 static std::string MutVarint(const std::string &b, size_t off, int pat) {
   static const std::string pats[4] = {std::string("\xff\xff\xff\xff\x0f", 5), std::string("\xff\xff\xff\xff\xff\xff\xff\xff\xff\x01", 10),
                                       std::string("\xff\xff\xff\xff\xff\xff\xff\xff\xff\xff\x01", 11), std::string("\x80\x00", 2)};
@@ -206,7 +220,7 @@ static void RunDecode(const Base &base, const std::string &bytes, int entry, uin
 static const int64_t kC0 = 64ll << 20, kKin = 2048, kKel = 256;  // calibrated: largest peak seen on corrupted 190..500-byte streams is 18 MB (fixed-size rANS tables)
 
 static std::vector<Base> g_bases;
-struct Segment { int base; int kind; int64_t count; int64_t start; };  // kind: 0 trunc 1 byte 2 u32 3 varint
+struct Segment { int base; int kind; int64_t count; int64_t start; };  // kind: 0 trunc 1 byte 2 u32 3 varint 4 wrap-magic (tiny bases only)
 static std::vector<Segment> g_plan;
 static int64_t g_plan_total = 0;
 
@@ -214,11 +228,12 @@ static void BuildBases(const vf::Args &a) {
   const bool thorough = a.tier == "thorough";
   const size_t max_len = static_cast<size_t>(a.GetInt("max-base-bytes", thorough ? 3000 : 420));
   const int max_frozen = static_cast<int>(a.GetInt("max-frozen-bases", thorough ? 700 : 60));
-  for (auto &n : ListDrc("/repo/testdata")) { std::string b = ReadFile("/repo/testdata/" + n); if (b.size() >= 11) g_bases.push_back({"testdata/" + n, b, kGeometry, 0}); }
+  const int64_t magic_len = a.GetInt("magic-max-bytes", thorough ? 600 : 200);
+  for (auto &n : ListDrc(vf::RepoRoot() + "/testdata")) { std::string b = ReadFile(vf::RepoRoot() + "/testdata/" + n); if (b.size() >= 11) g_bases.push_back({"testdata/" + n, b, kGeometry, 0}); }
   int nf = 0;
-  for (auto &n : ListDrc("/verif/corpus/frozen")) { if (nf >= max_frozen) break; std::string b = ReadFile("/verif/corpus/frozen/" + n); if (b.size() >= 11 && (thorough || b.size() <= 900)) { g_bases.push_back({"frozen/" + n, b, kGeometry, 0}); ++nf; } }
+  for (auto &n : ListDrc(vf::VerifRoot() + "/corpus/frozen")) { if (nf >= max_frozen) break; std::string b = ReadFile(vf::VerifRoot() + "/corpus/frozen/" + n); if (b.size() >= 11 && (thorough || b.size() <= 900)) { g_bases.push_back({"frozen/" + n, b, kGeometry, 0}); ++nf; } }
   // Hand-made valid streams for known numeric corner cases (written once with the plain build: --emit-special).
-  for (auto &n : ListDrc("/verif/corpus/special")) { std::string b = ReadFile("/verif/corpus/special/" + n); if (b.size() >= 11) g_bases.push_back({"special/" + n, b, kGeometry, 0}); }
+  for (auto &n : ListDrc(vf::VerifRoot() + "/corpus/special")) { std::string b = ReadFile(vf::VerifRoot() + "/corpus/special/" + n); if (b.size() >= 11) g_bases.push_back({"special/" + n, b, kGeometry, 0}); }
   // keyframe animation streams, metadata blobs and symbol blocks (generated deterministically)
   Rng r(777, 1, 2);
   for (int i = 0; i < 4; ++i) {
@@ -263,6 +278,7 @@ static void BuildBases(const vf::Args &a) {
     if (static_cast<size_t>(L) > max_len && g_bases[b].name.rfind("special/", 0) != 0) continue;
     const int64_t counts[4] = {L + 1, 8 * L, 6 * L, 4 * L};  // truncation length L = the unmodified stream
     for (int kd = 0; kd < 4; ++kd) { g_plan.push_back({static_cast<int>(b), kd, counts[kd], g_plan_total}); g_plan_total += counts[kd]; }
+    if (L <= magic_len) { g_plan.push_back({static_cast<int>(b), 4, 16 * L, g_plan_total}); g_plan_total += 16 * L; }
   }
 }
 
@@ -355,9 +371,10 @@ int main(int argc, char **argv) {
         case 0: mutated = b.substr(0, j); how = "truncate@" + std::to_string(j); break;
         case 1: mutated = MutByte(b, j / 8, j % 8); how = "byte@" + std::to_string(j / 8) + "/pat" + std::to_string(j % 8); break;
         case 2: mutated = MutU32(b, j / 6, j % 6); how = "u32@" + std::to_string(j / 6) + "/pat" + std::to_string(j % 6); break;
-        default: mutated = MutVarint(b, j / 4, j % 4); how = "varint@" + std::to_string(j / 4) + "/pat" + std::to_string(j % 4); break;
+        case 3: mutated = MutVarint(b, j / 4, j % 4); how = "varint@" + std::to_string(j / 4) + "/pat" + std::to_string(j % 4); break;
+        default: mutated = MutMagic(b, j / 16, j % 16); how = "magic@" + std::to_string(j / 16) + "/pat" + std::to_string(j % 16); break;
       }
-      rep.count("mutation/" + std::string(sg.kind == 0 ? "truncate" : sg.kind == 1 ? "byte" : sg.kind == 2 ? "u32" : "varint"));
+      rep.count("mutation/" + std::string(sg.kind == 0 ? "truncate" : sg.kind == 1 ? "byte" : sg.kind == 2 ? "u32" : sg.kind == 3 ? "varint" : "wrap-magic"));
     } else {
       const int64_t kk = k - sys_cases;
       const int mode = static_cast<int>(kk % 8);
@@ -376,9 +393,10 @@ int main(int argc, char **argv) {
         else if (site == TS_RANS_BIT || site == TS_DIRECT_BIT) { ctx.replacement = 1; ctx.relative = false; ctx.replacement = r.below(2); }
         else if (site == TS_VARINT || site == TS_SYMBOL || site == TS_LSB32) {
           const int64_t rel[6] = {1, -1, 2, 1000, -1000, 0};
-          int m = r.below(9);
+          int m = r.below(12);
           if (m < 5) { ctx.relative = true; ctx.replacement = rel[m]; }
-          else { const int64_t abs[4] = {0, 0x7fffffff, 0xffffffffll, 1 << 20}; ctx.replacement = abs[m - 5]; }
+          else if (m < 9) { const int64_t abs[4] = {0, 0x7fffffff, 0xffffffffll, 1 << 20}; ctx.replacement = abs[m - 5]; }
+          else { ctx.replacement = kWrapMagic[r.below(8)]; }
         }
         rep.note("phase=tamper-encode site=" + std::to_string(site) + " occurrence=" + std::to_string(ctx.target) + " replacement=" + std::to_string(ctx.replacement) + (ctx.relative ? "(rel)" : ""));
         auto &h = draco::verif::hooks();
@@ -401,7 +419,7 @@ int main(int argc, char **argv) {
           for (int s = 0; s < sites; ++s) {
             size_t off = r.below(mutated.size());
             int w = r.below(3);
-            if (w == 0) mutated = MutByte(mutated, off, r.below(8)); else if (w == 1) mutated = MutU32(mutated, off, r.below(6)); else mutated[off] = static_cast<char>(r.below(256));
+            if (w == 0) mutated = MutByte(mutated, off, r.below(8)); else if (w == 1) mutated = r.below(4) ? MutU32(mutated, off, r.below(6)) : MutMagic(mutated, off, r.below(16)); else mutated[off] = static_cast<char>(r.below(256));
           }
           how = "multi-site/" + std::to_string(sites);
           rep.count("mutation/multi-site");
